@@ -124,3 +124,40 @@ Theorem C05_accept_gate_unfixed_except_known : forall rmn roots sigs f,
   rmn_gate_rejects_unfixed rmn roots sigs f = rmn_gate_rejects rmn roots sigs f.
 Proof. exact accept_gate_unfixed_except_known. Qed.
 Print Assumptions C05_accept_gate_unfixed_except_known.
+
+(* ---------- the round as a chain: Query -> Observation -> ValidateObservation -> Outcome ---------- *)
+
+(* An announced retry in a building round is inert in every step: nothing is observed, only empty observations are
+   valid, the outcome is the previous outcome. Hence a bundle that rides on a retry query (which is not verified)
+   can never put a root or a signature into an outcome. *)
+Theorem C05_retry_round_inert : forall max n prev q w co,
+  next_state (o_type prev) = Building -> q_retry q = true ->
+  get_observation Building q w = obs_empty /\
+  (forall o, validate_retry q o = true -> obs_is_empty o = true) /\
+  get_outcome max n prev q co = prev.
+Proof. exact retry_round_inert. Qed.
+Print Assumptions C05_retry_round_inert.
+
+(* what Processor.Observation returns next to an error (and commit.Plugin.Observation then encodes) is empty *)
+Theorem C05_refused_observation_empty : forall verify_sigs enabled st cfg_e d dest init known offramp q w,
+  fst (observation_full verify_sigs enabled st cfg_e d dest init known offramp q w) <> Ok tt ->
+  snd (observation_full verify_sigs enabled st cfg_e d dest init known offramp q w) = obs_empty.
+Proof. exact refused_observation_empty. Qed.
+Print Assumptions C05_refused_observation_empty.
+
+(* merkle roots are observed only in a building round without retry, for the previous outcome's selected ranges *)
+Theorem C05_roots_observed_only_when_building : forall st q w,
+  ob_roots (get_observation st q w) <> [] ->
+  st = Building /\ q_retry q = false /\ ob_roots (get_observation st q w) = w_roots w.
+Proof. exact roots_observed_only_when_building. Qed.
+Print Assumptions C05_roots_observed_only_when_building.
+
+(* the honest leader's query: a bundle only from the controller, asked for exactly the previous outcome's ranges
+   with the bound on-ramp addresses; rmn.ErrTimeout becomes the retry query without bundle; otherwise empty *)
+Theorem C05_honest_query : forall enabled st cfg_e init offramp ranges onramp ctrl q reqs,
+  query_model enabled st cfg_e init offramp ranges onramp ctrl = (Ok q, reqs) ->
+  (q = mkQuery false None /\ reqs = None /\ (enabled = false \/ st <> Building)) \/
+  (enabled = true /\ st = Building /\ cfg_e = false /\ query_requests ranges onramp = reqs /\ reqs <> None /\
+   ((exists b, ctrl = CtrlSigs b /\ q = mkQuery false (Some b)) \/ (ctrl = CtrlTimeout /\ q = mkQuery true None))).
+Proof. exact query_model_cases. Qed.
+Print Assumptions C05_honest_query.
